@@ -36,6 +36,41 @@ HARNESSES = {
                    ("ticket", "from_file")],
         bounds="one source file, present or absent, table entry known/unknown under I3; unwind 4",
         kind="step"),
+    "step_clean_1t": dict(
+        module="work",
+        functions=[("work", "clean_targets"), ("blob", "get_file_ticket"), ("blob", "get_file_ticket_from_path"),
+                   ("cache", "back_up_file_with_ticket"), ("cache", "back_up_file"), ("ticket", "from_file")],
+        bounds="clean of a rule with 1 target from any pre-state under I1/I3 (target present/absent, table entry known/unknown); unwind 4",
+        kind="step"),
+    "step_clean_2t": dict(module="work", functions="step_clean_1t",
+        bounds="as step_clean_1t with 2 targets (possibly byte-identical, so that both are filed under one cache name)", kind="step"),
+    "clean_then_build_1t": dict(
+        module="work",
+        functions=[("work", "clean_targets"), ("work", "resolve_with_cache"), ("blob", "resolve_remembered_file_state_vec"),
+                   ("blob", "resolve_single_target"), ("blob", "restore_or_download"), ("blob", "get_file_ticket"),
+                   ("cache", "restore_file"), ("cache", "back_up_file_with_ticket"), ("ticket", "from_file")],
+        bounds="clean_targets followed by the resolve phase of the next build on the same symbolic file system, stale file-state table; rule with 1 target that was up to date; unwind 4",
+        kind="step"),
+    "clean_then_build_2t": dict(module="work", functions="clean_then_build_1t",
+        bounds="as clean_then_build_1t, 2 targets with different contents", kind="step"),
+    "unit_history_insert": dict(
+        module="history", submod="verif_unit",
+        functions=[("history", "insert"), ("blob", "compare"), ("history", "get_file_state_vec")],
+        bounds="existing entry or none, 1..3 remembered hashes vs 1..3 new hashes over 5 contents; unwind 5",
+        kind="unit"),
+    "step_tail_1t": dict(
+        module="work",
+        functions=[("blob", "get_current_file_state_vec"), ("blob", "get_file_ticket"), ("blob", "get_file_ticket_from_path"), ("ticket", "from_file")],
+        bounds="no-rebuild tail of handle_rule_node (Blob::get_current_file_state_vec on the blob that is then persisted), 1 target, any pre-state under I1/I3; unwind 4",
+        kind="step"),
+    "step_tail_2t": dict(module="work", functions="step_tail_1t", bounds="as step_tail_1t, 2 targets", kind="step"),
+    "step_rebuild_core_1t": dict(
+        module="work",
+        functions=[("system/mod", "to_command_script"), ("work", "to_command_line_input"), ("blob", "update_to_match_system_file_state"),
+                   ("blob", "get_actual_file_state"), ("ticket", "from_file")],
+        bounds="command-execution core of rebuild_node in rebuild_node's call order (not rebuild_node itself: out of memory at 45 GB), 1 target, command model succeeds / exits non-zero / fails to spawn / omits a target; unwind 4",
+        kind="step"),
+    "step_rebuild_core_2t": dict(module="work", functions="step_rebuild_core_1t", bounds="as step_rebuild_core_1t, 2 targets", kind="step"),
 }
 
 STEP_STUBS = [
@@ -52,6 +87,6 @@ STEP_STUBS = [
 PROPERTIES = {
     "C07": {"quick": ["step_resolve_single_target", "step_resolve_phase_1t"],
             "thorough": ["step_resolve_single_target", "step_resolve_phase_1t", "step_resolve_phase_2t"]},
-    "C08": {"quick": ["step_resolve_single_target", "step_resolve_phase_1t"],
-            "thorough": ["step_resolve_single_target", "step_resolve_phase_1t", "step_resolve_phase_2t"]},
+    "C08": {"quick": ["step_resolve_single_target", "step_resolve_phase_1t", "step_resolve_phase_2t", "step_clean_1t", "step_clean_2t", "step_rebuild_core_1t"],
+            "thorough": ["step_resolve_single_target", "step_resolve_phase_1t", "step_resolve_phase_2t", "step_clean_1t", "step_clean_2t", "step_rebuild_core_1t", "step_rebuild_core_2t", "clean_then_build_2t"]},
 }
